@@ -67,7 +67,8 @@ Fixpoint cstr (s : text) : text :=               (* a C string ends at the first
   match s with [] => [] | c :: r => if N.eqb c 0 then [] else c :: cstr r end.
 Fixpoint drop_space (s : text) : text :=
   match s with c :: r => if is_space c then drop_space r else s | [] => [] end.
-Definition strip (s : text) : text := rev (drop_space (rev (drop_space s))).
+(* rev' (= rev, List.rev_alt) is the linear-time reversal: the extracted model meets lines of CP_LINEMAX bytes *)
+Definition strip (s : text) : text := rev' (drop_space (rev' (drop_space s))).
 Definition lower (c : byte) : byte := if ((65 <=? c) && (c <=? 90))%N then (c + 32)%N else c.
 Fixpoint ci_prefix (kw s : text) : bool :=       (* strncasecmp(s, kw, strlen kw) == 0 *)
   match kw, s with
@@ -88,6 +89,13 @@ Definition scan_kw (fmt s : text) : option text :=
     | w => Some w
     end
   else None.
+
+(* val[strcspn(val, "\r\n")] = '\0' *)
+Fixpoint cut_eol (t : text) : text :=
+  match t with
+  | [] => []
+  | c :: r => if (N.eqb c 13 || N.eqb c 10)%bool then [] else c :: cut_eol r
+  end.
 
 Inductive request : Type :=
 | RTooLong | RHelp | RNodes | RTelemetry | RExprange | RQuit
@@ -156,8 +164,20 @@ Section C.
           cprintf CP_INFO_STATUS [ranged_sorted (pick ST_ON); ranged_sorted (pick ST_OFF); ranged_sorted unk])
     ++ (if error then CP_ERR_QRY_COMPLETE else CP_RSP_QRY_COMPLETE).
 
-  (* temperature (after the repair of F5: a node without value is listed once, as unknown) *)
+  (* temperature (after the repair of F5: a node without value is listed once, as unknown; after the repair of
+     F19: the value is cut at its first CR or LF, val[strcspn(val, "\r\n")] = 0) *)
   Definition reply_nointerp (c : client) (al : arglist) (error : bool) : text :=
+    let it := args_iter al in
+    flat_map (fun a => match ar_val a with Some v => cprintf CP_INFO_XSTATUS [ar_node a; cut_eol v] | None => [] end) it
+    ++ (match map ar_node (filter (fun a => match ar_val a with None => true | Some _ => false end) it) with
+        | [] => []
+        | l => cprintf CP_INFO_XSTATUS [ranged_sorted l; bslit "unknown"]
+        end)
+    ++ (if error then CP_ERR_QRY_COMPLETE else CP_RSP_QRY_COMPLETE).
+
+  (* the same reply as the code stood BEFORE the repair of F19 (raw `%s` of arg->val); kept only so that the
+     defect can be stated as a refuted theorem (Properties/C15.v) *)
+  Definition reply_nointerp_unrepaired (c : client) (al : arglist) (error : bool) : text :=
     let it := args_iter al in
     flat_map (fun a => match ar_val a with Some v => cprintf CP_INFO_XSTATUS [ar_node a; v] | None => [] end) it
     ++ (match map ar_node (filter (fun a => match ar_val a with None => true | Some _ => false end) it) with
